@@ -1,12 +1,12 @@
 \* fine-grained steps, the code as it is (callbacks after the queue mutex is released, cool-downs
-\* counted): deadlock checking ON, all safety invariants.  2 peers, 2 callers x 3 operations.
+\* counted): deadlock checking ON, all safety invariants.  2 peers, 2 callers x 2 operations (thorough: x 3, TTL 2).
 SPECIFICATION Spec
 CONSTANTS
   Peers = {"p1", "p2"}
   Callers = {"c1", "c2"}
   TimerSlots <- TwoSlots
-  TTL = 2
-  MaxTime = 3
+  TTL = 1
+  MaxTime = 1
   MaxOps = 2
   OpNames <- OpsCore
   CleanupThreshold = 2
